@@ -25,7 +25,7 @@ type c17 struct{}
 func (c17) ID() string { return "C17" }
 func (c17) Runs(tier string) int {
 	if tier == "thorough" {
-		return 120000
+		return 1000000
 	}
 	return 4000
 }
